@@ -24,7 +24,12 @@ RULE = ("(a) request streams from a real client: generated mixes of synchronous,
 ASSUMPTIONS = ["the ledger is decoded with vlib.refcodec (independent of rpyc)", "HANDLE_CLOSE is not part of the streams"]
 
 OUTCOMES = ["value", "value", "ref", "exc", "custom", "unboxable", "unencodable", "nested", "nested-exc", "none", "sysexit",
-            "genexit"]
+            "genexit", "exc-unprintable"]
+
+
+class Unprintable(object):
+    def __repr__(self):
+        raise RuntimeError("no repr")
 
 
 class Hostile(object):
@@ -53,6 +58,8 @@ def make_service(counters):
                 raise ValueError(token)
             if outcome == "custom":
                 raise MyErr(token)
+            if outcome == "exc-unprintable":
+                raise ValueError(token, Unprintable())
             if outcome == "sysexit":
                 raise SystemExit(token)
             if outcome == "genexit":
@@ -173,6 +180,8 @@ def check_stream(case, rec):
                     ok = got[0] == "raised" and isinstance(got[1], SystemExit) and got[1].args == (tok,)
                 elif outcome == "genexit":
                     ok = got[0] == "raised" and isinstance(got[1], GeneratorExit) and got[1].args == (tok,)
+                elif outcome == "exc-unprintable":
+                    ok = got[0] == "raised" and isinstance(got[1], ValueError) and got[1].args[:1] == (tok,)
                 elif outcome in ("unboxable", "unencodable"):
                     ok = got[0] == "raised" and isinstance(got[1], Exception) and not isinstance(got[1], (EOFError, TimeoutError))
                 elif outcome == "nested":
